@@ -366,6 +366,60 @@ let do_lo line args res =
       (match res with [e; un] -> prop "local_expiry_consistent" ((e = "1") = (zh un <=! Z0)) line "" | _ -> ())
   | _ -> ()
 
+(* ------------------------------------------------------------ class iv / sl *)
+let ist_of n = match n with 1 -> ISNormal | 2 -> ISAdapting | 3 -> ISRecovering | 4 -> ISUnadjustable | _ -> ISNone
+let int_of_ist s = match s with ISNone -> 0 | ISNormal -> 1 | ISAdapting -> 2 | ISRecovering -> 3 | ISUnadjustable -> 4
+let zmin a b = if a <! b then a else b
+let inv_ok cfg ada = (Z0 <! cfg) && (zmin min_interval cfg <=! ada) && (ada <=! cfg)
+let do_iv line args res =
+  incr ncases;
+  let cmp m = if m <> String.concat "\t" res then mismatch line m in
+  match args with
+  | ["next"; cfg; ada; ls; lt; st; now; req] ->
+      let cfg = zh cfg and ada = zh ada and now = zh now and req = zh req and lt = zh lt in
+      let s = { cfg = cfg; ada = ada; last_short_ms = zh ls; last_tick = lt; istt = ist_of (int_of_string st) } in
+      let (s', ret) = next_interval s now req in
+      cmp (hz ret ^ "\t" ^ hz s'.ada ^ "\t" ^ string_of_int (int_of_ist s'.istt));
+      (match res with
+       | [_; ia; ist'] when inv_ok cfg ada && (lt <=! now) ->
+           let ia = zh ia in
+           prop "interval_within_bounds" (inv_ok cfg ia) line "";
+           if (min_interval <! cfg) && not (zeq req Z0) && (req <! ada) && (min_interval <! ada) then
+             prop "interval_shrinks_in_one_step" ((ia <! ada) && (min_interval <=! ia) && ist' = "2" && zeq ia (zmax (zsub req (zh "5f5e100")) min_interval)) line ""
+       | _ -> ())
+  | ["set"; cfg; ada; nw] ->
+      let cfg = zh cfg and ada = zh ada and nw = zh nw in
+      let s = { cfg = cfg; ada = ada; last_short_ms = Z0; last_tick = Z0; istt = ISNone } in
+      (match set_interval s nw with
+       | None -> cmp ("0\t" ^ hz cfg ^ "\t" ^ hz ada)
+       | Some s' -> cmp ("1\t" ^ hz s'.cfg ^ "\t" ^ hz s'.ada));
+      (match res with
+       | ["1"; ic; ia] when inv_ok cfg ada -> prop "interval_within_bounds" (inv_ok (zh ic) (zh ia) && zeq (zh ic) nw) line ""
+       | _ -> ())
+  | ["adj"; cfg; ada; ls; read; cur; now] ->
+      let s = { cfg = zh cfg; ada = zh ada; last_short_ms = zh ls; last_tick = Z0; istt = ISNone } in
+      let (s', sent) = adjust s (zh read) (zh cur) (zh now) in
+      cmp (hz s'.last_short_ms ^ "\t" ^ (match sent with Some d -> hz d | None -> "0"))
+  | _ -> ()
+let do_sl line args res =
+  incr ncases;
+  match res with
+  | [ir; tso; prev; before; arr; after] ->
+      let tso = zh tso and prev = zh prev and before = zh before and arr = zh arr and after = zh after in
+      let lo = stale_ts tso arr before prev and hi = stale_ts tso arr after prev in
+      (match lo, hi with
+       | None, _ | _, None -> if ir <> "errprev" then mismatch line "errprev"
+       | Some l, Some h ->
+           if String.length ir > 3 && String.sub ir 0 3 = "ok " then begin
+             let v = zh (String.sub ir 3 (String.length ir - 3)) in
+             (* the clock reading inside the call lies between the two readings taken around it; the model is monotone in it *)
+             if not ((l <=! v) && (v <=! h)) then mismatch line ("ok in [" ^ hz l ^ "," ^ hz h ^ "]");
+             prop "stale_logical_zero" (zeq (extract_logical v) Z0) line "";
+             if (arr <=! before) && (zsub after arr <=! zmul prev (zh "3b9aca00")) then
+               prop "stale_le_last_when_fresh" (v <=! tso) line ""
+           end else mismatch line ("ok in [" ^ hz l ^ "," ^ hz h ^ "]"))
+  | _ -> ()
+
 let () =
   let nlines = ref 0 in
   read_lines (fun line ->
@@ -378,10 +432,10 @@ let () =
         let verdict = List.nth rest (List.length rest - 1) in
         prop name (verdict = "pass") line ""
     | cls :: rest ->
-        let starts = (match rest with "begin" :: _ -> true | _ -> cls = "cw" || cls = "ar" || cls = "bg" || cls = "st" || cls = "mo") in
+        let starts = (match rest with "begin" :: _ -> true | _ -> cls = "cw" || cls = "ar" || cls = "bg" || cls = "st" || cls = "mo" || cls = "iv" || cls = "sl") in
         if starts then cur_case := [];
         cur_case := input_part line :: !cur_case;
-        bump (cls ^ ":" ^ (match rest with op :: _ when cls <> "cw" -> op | _ -> ""));
+        bump (cls ^ ":" ^ (match rest with op :: _ when cls <> "cw" && cls <> "sl" -> op | _ -> ""));
         if res <> [] && cls <> "bg" && cls <> "st" then Hashtbl.replace distinct (cls ^ (String.concat "\t" (List.tl args)) ^ "=>" ^ String.concat "\t" res) ();
         (try
           (match cls with
@@ -390,6 +444,8 @@ let () =
            | "sf" -> do_sf line rest res
            | "cw" -> do_cw line rest res
            | "lo" -> do_lo line rest res
+           | "iv" -> do_iv line rest res
+           | "sl" -> do_sl line rest res
            | _ -> ())
         with e -> mismatch line ("model-exception " ^ Printexc.to_string e))
     | [] -> ()
